@@ -155,6 +155,10 @@ void parseOutput(const std::string &text, RunResult &r)
             r.rates[0] = parseDoubles(is);
         } else if (key == "RATES1") {
             r.rates[1] = parseDoubles(is);
+        } else if (key == "VARSR0") {
+            r.varsAfterRates[0] = parseDoubles(is);
+        } else if (key == "VARSR1") {
+            r.varsAfterRates[1] = parseDoubles(is);
         } else if (key == "VARS0") {
             r.vars[0] = parseDoubles(is);
         } else if (key == "VARS1") {
@@ -184,7 +188,7 @@ std::string cDriver(const RunPlan &plan)
     std::ostringstream o;
     const bool ode = plan.ode, ext = plan.externals;
     o << "#include \"model.h\"\n#include <math.h>\n#include <stdio.h>\n#include <string.h>\n\n";
-    o << "static double g_resid = 0.0; static long g_calls = 0; static int g_point = 0;\n";
+    o << "static double g_resid = 0.0; static long g_calls = 0; static int g_point = 0; static int g_stage = 0;\n";
     o << "void nlaSolve(void (*objectiveFunction)(double *, double *, void *), double *u, size_t n, void *data)\n{\n"
          "    double f[64]; size_t i; for (i = 0; i < n && i < 64; ++i) f[i] = NAN;\n    objectiveFunction(u, f, data); ++g_calls;\n"
          "    for (i = 0; i < n && i < 64; ++i) { if (!(fabs(f[i]) <= g_resid)) g_resid = isnan(f[i]) ? INFINITY : fabs(f[i]); }\n}\n";
@@ -210,13 +214,14 @@ std::string cDriver(const RunPlan &plan)
         o << "};\n";
         o << "static double lookupExt(size_t index) { size_t i; const size_t *ix = g_point ? extIdx1 : extIdx0; const double *vx = g_point ? extVal1 : extVal0; size_t n = g_point ? "
           << plan.externalValues[1].size() + 1 << " : " << plan.externalValues[0].size() + 1 << "; for (i = 1; i < n; ++i) if (ix[i] == index) return vx[i]; return NAN; }\n";
+        o << "static void poisonExt(double *variables) { size_t i; for (i = 1; i < " << plan.externalValues[0].size() + 1 << "; ++i) variables[extIdx0[i]] = NAN; }\n";
         if (ode) {
-            o << "static double externalVariable(double voi, double *states, double *rates, double *variables, size_t index)\n{\n    size_t i; (void)voi; (void)rates;\n"
-                 "    printf(\"XC %d %zu |\", g_point, index); for (i = 0; i < STATE_COUNT; ++i) printf(\" %.17g\", states[i]); printf(\" |\"); for (i = 0; i < VARIABLE_COUNT; ++i) printf(\" %.17g\", variables[i]); printf(\"\\n\");\n"
+            o << "static double externalVariable(double voi, double *states, double *rates, double *variables, size_t index)\n{\n    size_t i; (void)rates;\n"
+                 "    printf(\"XC %d %zu %d %.17g |\", g_point, index, g_stage, voi); for (i = 0; i < STATE_COUNT; ++i) printf(\" %.17g\", states[i]); printf(\" |\"); for (i = 0; i < VARIABLE_COUNT; ++i) printf(\" %.17g\", variables[i]); printf(\"\\n\");\n"
                  "    return lookupExt(index);\n}\n";
         } else {
             o << "static double externalVariable(double *variables, size_t index)\n{\n    size_t i;\n"
-                 "    printf(\"XC %d %zu | |\", g_point, index); for (i = 0; i < VARIABLE_COUNT; ++i) printf(\" %.17g\", variables[i]); printf(\"\\n\");\n"
+                 "    printf(\"XC %d %zu %d nan | |\", g_point, index, g_stage); for (i = 0; i < VARIABLE_COUNT; ++i) printf(\" %.17g\", variables[i]); printf(\"\\n\");\n"
                  "    return lookupExt(index);\n}\n";
         }
     }
@@ -239,6 +244,8 @@ std::string cDriver(const RunPlan &plan)
     o << "    printf(\"VARIABLE_COUNT %zu\\n\", VARIABLE_COUNT);\n";
     o << "    for (i = 0; i < VARIABLE_COUNT; ++i) printf(\"VARIABLE_INFO %s|%s|%s|%s|%zu|%zu|%zu\\n\", VARIABLE_INFO[i].name, VARIABLE_INFO[i].units, VARIABLE_INFO[i].component, tn((int)VARIABLE_INFO[i].type), CAP(VARIABLE_INFO[i].name), CAP(VARIABLE_INFO[i].units), CAP(VARIABLE_INFO[i].component));\n";
     o << "    double *variables = createVariablesArray();\n";
+    const std::string poison = (ext && plan.poisonExternals) ? "    poisonExt(variables);\n" : "";
+    o << poison;
     std::string extArg = ext ? ", externalVariable" : "";
     if (ode) {
         o << "    double *states = createStatesArray();\n    double *rates = createStatesArray();\n";
@@ -251,7 +258,8 @@ std::string cDriver(const RunPlan &plan)
     } else {
         o << "    initialiseVariables(variables" << extArg << ");\n";
     }
-    o << "    dump(\"INIT_VARS\", variables, VARIABLE_COUNT);\n";
+    o << "    dump(\"INIT_VARS\", variables, VARIABLE_COUNT);\n"
+      << poison;
     for (const auto &p : plan.preload[0]) {
         o << "    variables[" << p.first << "] = " << num(p.second) << ";\n";
     }
@@ -269,12 +277,15 @@ std::string cDriver(const RunPlan &plan)
             }
         }
         if (ode) {
-            o << "    computeRates(" << num(plan.voi[pt]) << ", states, rates, variables" << extArg << ");\n    dump(\"RATES" << pt << "\", rates, STATE_COUNT);\n";
-            o << "    computeVariables(" << num(plan.voi[pt]) << ", states, rates, variables" << extArg << ");\n    dump(\"STATES" << pt << "\", states, STATE_COUNT);\n";
+            o << "    g_stage = 1;\n    computeRates(" << num(plan.voi[pt]) << ", states, rates, variables" << extArg << ");\n    dump(\"RATES" << pt << "\", rates, STATE_COUNT);\n"
+              << "    dump(\"VARSR" << pt << "\", variables, VARIABLE_COUNT);\n"
+              << poison;
+            o << "    g_stage = 2;\n    computeVariables(" << num(plan.voi[pt]) << ", states, rates, variables" << extArg << ");\n    dump(\"STATES" << pt << "\", states, STATE_COUNT);\n";
         } else {
-            o << "    computeVariables(variables" << extArg << ");\n";
+            o << "    g_stage = 2;\n    computeVariables(variables" << extArg << ");\n";
         }
-        o << "    dump(\"VARS" << pt << "\", variables, VARIABLE_COUNT);\n";
+        o << "    dump(\"VARS" << pt << "\", variables, VARIABLE_COUNT);\n"
+          << poison;
     }
     o << "    printf(\"RESID %.17g %ld\\n\", g_resid, g_calls);\n";
     o << "    deleteArray(variables);\n";
@@ -402,6 +413,7 @@ bool CodeRunner::runPython(const std::string &impl, const RunPlan &plan, RunResu
         }
         rq << "\n";
     }
+    rq << "POISON " << (plan.externals && plan.poisonExternals ? 1 : 0) << "\n";
     std::string req = rq.str();
     // python float() understands nan/inf spelled in lower case
     for (const char *from : {"NAN", "INFINITY"}) {
